@@ -94,7 +94,7 @@ def around(rng, size, ln):
 
 FALLOC_MODES = [0, 1, 2, 3, 16, 17, 8, 32, 64, 65, 9, 33, 4, 128, 19]
 
-def gen_history(rng, n, no_open, sealed_only_safe=False, max_grow=1 << 22):
+def gen_history(rng, n, no_open, modes=None):
     """abstract requests; `slots` tracks what the generator believes is open (file, flags)"""
     slots = {}; H = []
     for _ in range(n):
@@ -125,7 +125,7 @@ def gen_history(rng, n, no_open, sealed_only_safe=False, max_grow=1 << 22):
             if no_open: slot, hf = 0, f
             elif slots: slot = rng.choice(sorted(slots)); hf = slots[slot][0]
             else: continue
-            r = {'op': 'fallocate', 'slot': slot, 'file': hf, 'mode': rng.choice(FALLOC_MODES), 'off': None, 'len': rng.choice([0, 1, 100, 4096, 8192, 4095])}
+            r = {'op': 'fallocate', 'slot': slot, 'file': hf, 'mode': rng.choice(modes or FALLOC_MODES), 'off': None, 'len': rng.choice([0, 1, 100, 4096, 8192, 4095])}
         elif x < 0.93:
             ws = rng.random() < 0.7
             r = {'op': 'setattr', 'file': f, 'with_size': ws, 'size': None}
@@ -225,7 +225,7 @@ def run_check(tier, seed):
     if not ok:
         broken.append({'kind': 'harness-build', 'log': out[-3000:]})
         return finish(ev, PROP, findings, broken)
-    nh = 30 if quick else 400
+    nh = 30 if quick else 150
     evals = 0; nontriv = set(); samples = []; exprs = []; meta = []
     base = os.path.join(SCRATCH, 'c18-tree')
     try:
@@ -293,7 +293,8 @@ def run_check(tier, seed):
             for hi in range(max(8, nh // 4)):
                 U = Inst(bindir, base + '-v', 0, no_open)
                 try:
-                    H = gen_history(rng, 40, no_open); cases = []
+                    # mode bit 128 (FALLOC_FL_WRITE_ZEROES) exists only on recent kernels: not part of the host model
+                    H = gen_history(rng, 40, no_open, [m for m in FALLOC_MODES if m < 128]); cases = []
                     for r in H:
                         before = U.sizes(); concretize(rng, r, before, 1 << 23)
                         e = U.send(r); after = U.sizes(); evals += 1
@@ -309,7 +310,8 @@ def run_check(tier, seed):
         broken.append({'kind': 'harness', 'error': str(ex)[:500]})
     log('C18: implementation runs %.1fs (%d requests, %d histories)' % (time.time() - t0, evals, len(exprs))); t0 = time.time()
     if not any(b['kind'] in ('proof', 'hygiene') for b in broken) and exprs:
-        fails, errs = coq_check_cases('c18', COQ_HEADER, exprs, shard=max(4, (len(exprs) + 15) // 16), timeout=600)
+        from c16 import check_cases_sep
+        fails, errs = check_cases_sep('c18', COQ_HEADER, exprs, shard=max(4, (len(exprs) + 15) // 16), timeout=600)
         for e in errs: broken.append({'kind': 'correspondence', 'name': 'coq evaluation of cases failed', 'log': e['log'][-800:]})
         for i in fails:
             broken.append({'kind': 'correspondence', 'name': 'Model/Seal.v run vs Server+PassthroughFs (errno and sizes after every request)', 'case': meta[i]})
